@@ -99,6 +99,30 @@ MAY_PANIC = {
     'std::rt::begin_panic': 'panic!',
     'core::option::expect_failed': 'expect',
     'core::result::unwrap_failed': 'unwrap',
+    'core::str::<impl str>::split_at': 'offset not on a char boundary / out of range',
+    'core::str::<impl str>::split_at_mut': 'offset not on a char boundary / out of range',
+    'core::slice::<impl [T]>::split_at_mut': 'mid > len',
+    'core::slice::<impl [T]>::clone_from_slice': 'length mismatch',
+    'core::slice::<impl [T]>::swap': 'index out of bounds',
+    'core::slice::<impl [T]>::chunks': 'chunk size 0',
+    'core::slice::<impl [T]>::chunks_exact': 'chunk size 0',
+    'core::slice::<impl [T]>::windows': 'window size 0',
+    'core::slice::<impl [T]>::rotate_left': 'k > len',
+    'core::slice::<impl [T]>::rotate_right': 'k > len',
+    'alloc::string::String::remove': 'index out of range / not a char boundary',
+    'alloc::string::String::insert': 'index out of range / not a char boundary',
+    'alloc::string::String::insert_str': 'index out of range / not a char boundary',
+    'alloc::string::String::split_off': 'index out of range / not a char boundary',
+    'alloc::string::String::drain': 'range out of bounds / not on char boundaries',
+    'alloc::string::String::replace_range': 'range out of bounds / not on char boundaries',
+    'alloc::vec::Vec::remove': 'index out of bounds',
+    'alloc::vec::Vec::swap_remove': 'index out of bounds',
+    'alloc::vec::Vec::insert': 'index out of bounds',
+    'alloc::vec::Vec::split_off': 'at > len',
+    'alloc::vec::Vec::drain': 'range out of bounds',
+    'core::char::methods::<impl char>::from_digit': 'radix > 36',
+    'core::char::methods::<impl char>::to_digit': 'radix > 36',
+    'core::option::Option::unwrap_unchecked': 'UB on None',
     'core::cell::RefCell::borrow_mut': 'already borrowed',
     'core::cell::RefCell::borrow': 'already mutably borrowed',
 }
